@@ -20,7 +20,7 @@ def sh(cmd, cwd, env=ENV, timeout=3000):
 def main():
     a = sys.argv[1:]
     out, prop, demodir = a[0], a[1], a[2]
-    extra_env, flags, nosuite = {}, [], False
+    extra_env, flags, nosuite, files_mode = {}, [], False, False
     i = 3
     while i < len(a):
         if a[i] == "--env":
@@ -29,6 +29,8 @@ def main():
             flags = a[i + 1].split(); i += 2
         elif a[i] == "--nosuite":
             nosuite = True; i += 1
+        elif a[i] == "--files":
+            files_mode = True; i += 1
         else:
             i += 1
     name = os.path.basename(os.path.dirname(out.rstrip("/"))).replace(".out", "") + "-" + os.path.basename(out.rstrip("/"))
@@ -45,11 +47,16 @@ def main():
         if not demos:
             print("no demo test file in", out); sys.exit(2)
         tests = []
+        os.makedirs(os.path.join(wt, demodir), exist_ok=True)
         for d in demos:
             shutil.copy(os.path.join(out, d), os.path.join(wt, demodir, d))
             tests += re.findall(r"^func (Test\w+)\(", open(os.path.join(out, d)).read(), re.M)
         runre = "^(" + "|".join(tests) + ")$"
         cmd = ["go", "test", "-vet=off", "-count=1", "-run", runre] + flags + ["./" + demodir]
+        if files_mode:
+            # packages whose own TestMain never runs tests: compile the non-test sources plus the demo only
+            srcs = sorted(os.path.join(demodir, f) for f in os.listdir(os.path.join(wt, demodir)) if f.endswith(".go") and not f.endswith("_test.go"))
+            cmd = ["go", "test", "-vet=off", "-count=1", "-run", runre] + flags + srcs + [os.path.join(demodir, d) for d in demos]
         rc0, o0 = sh(cmd, wt, env)
         res["demo_clean_exit"] = rc0
         rc, o = sh(["git", "apply", "--whitespace=nowarn", os.path.join(out, "patch.diff")], wt)
